@@ -53,6 +53,11 @@ CLAIMED = {
    text="Generated-input search: 300 (quick) triples over 14 deep / wide shapes at sizes 10..10^5 (thorough 10^6) and 5 cyclic shapes with cycle lengths 1-64, under 8 operations (build and discard with a collection, equal? with an equal and with a different copy, use as hash key, write to a string port, hand to a native thread, collect while alive, store in containers), JIT on/off. The engine process must survive (a native stack overflow is a crash), give the expected small result or an error value, and operations on cycles of <=64 cells must finish within 15 s. Out of memory and timeouts on large sizes are inconclusive.",
    note="Trusted: fork isolation and resource limits of the worker (6 GB address space, 8 MB main-thread stack). Streams are not generated. Recursive hashing and the cycle printer's box path are listed known findings matched by signature.",
    design="DESIGN.md section 4, C18"),
+ "C19": dict(
+   technique="property-based testing with an invariant over heap statistics (hook): generated allocation patterns with a bounded live set x iteration counts x collection regime (natural, or forced every P allocations by the gc-stress hook); metamorphic relation: 5x the iterations must not change the live slot counts",
+   text="Generated-input search: 250 (quick) cases over 14 allocation patterns (acyclic and cyclic garbage of cycle length 1-9 through boxes, vectors, make-vector, struct fields and mixes, self-capturing closures, garbage held by dropped continuations and by joined threads, hash maps of boxes, grown-and-dropped lists) with a live set of 0-40 boxes, n then 4n more iterations (n up to 40000; thorough 3*10^6), natural or forced collections; after a requested full collection the live slot counts of both free lists must not depend on the iteration count, and under forced collections the free lists' sizes must stay bounded; one weak-box scenario. JIT on/off.",
+   note="Trusted: hooks #%verif-heap-stats and gc-stress (steel-core feature verif). Unbounded growth of the free lists under *natural* collections needs >5*10^7 allocations to tell from the normal double-until-compaction sawtooth (peak 2.6*10^7 slots) and is only checked through the live counts in the quick tier; process-level memory is not measured.",
+   design="DESIGN.md section 4, C19"),
  "C02": dict(
    technique="differential property-based testing: generated programs and evaluation histories run under 7 (quick) / 24 (thorough) combinations of the optimisation switches (JIT, inlining, recursive inlining, closure lifting, module inlining), all compared with each other and with the reference interpreter",
    text="Generated-input search: each generated program / history (same generators as C01 and C06) is executed in forked workers under every selected combination of STEEL_JIT, STEEL_INLINE, STEEL_INLINE_RECURSIVE, STEEL_CLOSURE_LIFTING and STEEL_MODULE_INLINE, as top-level text and as a module; values, output and outcome must be identical across configurations (and equal to the reference interpreter). A failure is classed jitdiv (only the JIT differs) or cfgdiv. Bounded by the generators; no proof.",
